@@ -98,6 +98,8 @@ class Engine:
         if k == "dict":
             return V(t, (self.bv(name + ".dom", z3.ArraySort(sort_of(t[1]), z3.BoolSort())),
                          self.bv(name + ".val", z3.ArraySort(sort_of(t[1]), sort_of(t[2])))))
+        if k == "obj":
+            return V(t, {f: self.bvar(f"{name}.{f}", ft) for f, ft in OBJ_LAYOUT[t[1]].items()})
         return V(t, self.bv(name, sort_of(t)))
 
     def mkset(self, st, consts, body):
@@ -605,6 +607,16 @@ class Engine:
             return [(st, recv.x[sv.as_string()])]
         if k == "opt" and self.spec:
             return self.index(recv.x[1], idx, st, node)
+        if k == "opt":
+            # None[...] is a TypeError
+            s_none = st.fork()
+            s_none.assume(recv.x[0])
+            if feasible(s_none):
+                self.do_raise(s_none, "TypeError", ln)
+            st.assume(znot(recv.x[0]))
+            return self.index(recv.x[1], idx, st, node)
+        if k in ("opaque", "data") and self.reg.lookup_method(self.reg.family_of(recv) or "", "__getitem__") is not None:
+            return self.reg.call_method(self, st, recv, "__getitem__", [idx], {}, node)
         if k == "dict":
             key = to_term(coerce(idx, recv.t[1]))
             present = z3.Select(recv.x[0], key)
